@@ -289,7 +289,17 @@ impl Run<'_, '_> {
             }
         }
         let before = self.battery();
-        let name = format!("cp{}", self.cps.len() + 1);
+        // half of the programs name their checkpoints in pairs that differ only in letter case
+        // (rel1, REL1, rel2, REL2 ...): a name is matched exactly, never up to case
+        let k = self.cps.len() + 1;
+        let name = if self.case.last & 1 == 1 {
+            if k % 2 == 1 { format!("rel{}", (k + 1) / 2) } else { format!("REL{}", k / 2) }
+        } else {
+            format!("cp{k}")
+        };
+        if self.case.last & 1 == 1 && k == 2 {
+            self.ctx.label("checkpoint names that differ only in case");
+        }
         let text = format!("CHECKPOINT '{name}'");
         let started = now_s();
         if self.case.spaced && self.last_cp_second.is_some_and(|t| started <= t) {
